@@ -365,7 +365,7 @@ pub fn run(tier: Tier) -> i32 {
         ctx.gate(&format!("error cause '{}' observed (standard mode)", cause), tally.get(&format!("agree_err/{}/std", cause)), 5);
     }
     ctx.gate("S3-mode agreements", tally.get("agree_ok/enum/s3"), tier.n(1000, 100_000));
-    ctx.gate("standard-mode agreements", tally.get("agree_ok/enum/std"), tier.n(1000, 100_000));
+    ctx.gate("standard-mode agreements", tally.get("agree_ok/enum/std"), tier.n(1000, 50_000));
     ctx.gate("idempotence relation evaluated", tally.get("idempotent"), tier.n(5000, 500_000));
     ctx.gate("respelling relation evaluated", tally.get("respelling_invariant"), tier.n(5000, 500_000));
     ctx.gate("end-to-end accepted, standard mode", tally.get("e2e_accepted/std"), tier.n(2000, 50_000));
